@@ -378,10 +378,10 @@ def run_drill(case, rec, rng):
         all_victims, copied_holes = set(), set()
         grp_uid = grp.uid
         for step in range(case["n_ops"]):
-            h = c = new = cands = e = prot = kids = None  # the driver keeps no handle from one step to the next
+            h = c = new = cands = e = prot = kids = pgs = pg = None  # the driver keeps no handle from one step to the next
             gc.collect()
             live = [u for u in holes if u not in removed_holes]
-            k = rng.choice(["rm_data", "rm_hole", "rm_data", "reopen", "copy_hole", "rm_protected"])
+            k = rng.choice(["rm_data", "rm_hole", "rm_data", "reopen", "copy_hole", "rm_protected", "rm_pg"])
             via = rng.choice(["workspace", "parent"])
             if k == "rm_hole" and (len(live) > 1 or (len(live) == 1 and rng.random() < 0.5)):  # the group's last hole goes too
                 u = rng.choice(live)
@@ -438,6 +438,37 @@ def run_drill(case, rec, rng):
                     except Exception as exc:  # noqa: BLE001
                         rec.fail("C05.followup-raises", op="re-add-after-removal", cls="ConcatenatedData", attr=type(exc).__name__, detail=f"adding data under the name of removed data raised {type(exc).__name__}: {exc}")
                         break
+                del h
+            elif k == "rm_pg" and live:
+                # a whole table (property group) of a hole: the group, its depth data and every member go
+                u = rng.choice(live)
+                h = ws.get_entity(uuid.UUID(u))[0]
+                pgs = [p for p in (h.property_groups or []) if p.properties]
+                if not pgs:
+                    continue
+                pg = rng.choice(pgs)
+                pgs = None
+                pg_uid = str(pg.uid)
+                members = {str(x) for x in pg.properties}
+                ops.append(("rm_pg", via))
+                rec.see("drill-removals")
+                rec.see("drill-group-removals")
+                rec.see("via:" + via)
+                try:
+                    if via == "workspace":
+                        ws.remove_entity(pg)
+                    else:
+                        h.remove_children([pg])
+                except Exception as exc:  # noqa: BLE001
+                    rec.fail("C05.followup-raises", op="remove-pg:" + via, cls="ConcatenatedPropertyGroup", attr=type(exc).__name__, detail=f"removing a property group of a hole raised {type(exc).__name__}: {exc}")
+                    break
+                pg = None
+                gc.collect()
+                left = set(h.get_data_list())
+                holes[u]["data"] = [n for n in holes[u]["data"] if n in left]
+                all_victims |= members
+                rec.check("C05.pg-mentions-removed", pg_uid not in {str(p.uid) for p in (h.property_groups or [])}, op="remove-pg:" + via, cls="ConcatenatedPropertyGroup", attr="live", detail="the removed property group is still listed on its hole")
+                judge_concat(rec, ws, grp, members, "remove-pg:" + via, "ConcatenatedData", copied=u in copied_holes)
                 del h
             elif k == "rm_protected" and live:
                 u = rng.choice(live)
@@ -508,7 +539,7 @@ def judge_concat(rec, ws, grp, victims, where, cls, hole=None, name=None, copied
     for v in sorted(victims):
         e = ws.get_entity(uuid.UUID(v))[0]
         # a copy of a hole keeps the source's DEPTH data (and through it the source hole) alive: separate mechanism
-        rec.check("C05.lookup", e is None, op=where, cls=cls, attr="by-uid:copied-before" if copied else "by-uid", detail=f"get_entity({v}) still returns {type(e).__name__}")
+        rec.check("C05.lookup", e is None, op=where, cls=cls, attr="by-uid:copied-before" if copied else "by-uid", detail=f"get_entity({v}) still returns {type(e).__name__} {getattr(e, 'name', None)!r}")
         e = None
     kids = {str(c.uid) for c in grp.children}
     rec.check("C05.child-list", not (kids & victims), op=where, cls="Concatenator", attr="", detail=f"group children still contain removed {sorted(kids & victims)[:2]}")
